@@ -853,6 +853,17 @@ func (c *ckptRun) mutateVerify(sgs []*ckptSigned) {
 			m[9] = 1
 			c.checkVerify("ecdsa", k, sg.name, text, m, "ecdsa-signature-marked-rsa", 0)
 		}
+		// a signature that verifies under the PUBLIC key for the all-zero digest (no private key needed), with every
+		// class of hash-algorithm byte: accepted only by a verifier that leaves the digest empty for an unknown algorithm
+		if pub, ok := k.pub("ecdsa").(*ecdsa.PublicKey); ok {
+			der := ForgeZeroDigestECDSA(pub, int64(idx)+2)
+			for _, alg := range []byte{0, 1, 2, 3, 4, 5, 6, 7, 8, 255} {
+				m := binary.BigEndian.AppendUint64(nil, uint64(sg.ts))
+				m = append(m, alg, 3, byte(len(der)>>8), byte(len(der)))
+				m = append(m, der...)
+				c.checkVerify("ecdsa", k, sg.name, text, m, "forged-for-zero-digest", 0)
+			}
+		}
 		c.injected(k, sg, sgs[(idx+1)%len(sgs)])
 		c.noteMutations(k, sg, sgs[(idx+1)%len(sgs)])
 	}
